@@ -373,7 +373,9 @@ def _brief_cfg(cfg):
 
 
 def load_known(prop):
-    path = os.path.join(VERIF_DIR, "known_findings.json")
+    path = os.environ.get("VERIF_KNOWN_FINDINGS") or os.path.join(
+        VERIF_DIR, "known_findings.json"
+    )
     try:
         with open(path) as fp:
             data = json.load(fp)
@@ -468,6 +470,7 @@ def run_pool(prop, tier, seed, budget_s=None, workers=None, max_runs=None,
     if minimise_s is not None:
         conf["minimise_s"] = minimise_s
     workers = workers or min(16, os.cpu_count() or 1)
+    _sweep_stale_scratch()
     base = os.path.join(scratch_base(), f"simlab-{os.getpid()}-{prop}")
     shutil.rmtree(base, ignore_errors=True)
     os.makedirs(base)
@@ -531,6 +534,25 @@ def run_pool(prop, tier, seed, budget_s=None, workers=None, max_runs=None,
     shutil.rmtree(base, ignore_errors=True)
     wall = time.monotonic() - started
     return merge(results), errors, wall, workers
+
+
+def _sweep_stale_scratch(max_age_s=3 * 3600):
+    """Remove scratch directories left behind by checks that were killed."""
+    root = scratch_base()
+    now = time.time()
+    try:
+        names = os.listdir(root)
+    except OSError:
+        return
+    for name in names:
+        if not name.startswith("simlab-"):
+            continue
+        path = os.path.join(root, name)
+        try:
+            if now - os.path.getmtime(path) > max_age_s:
+                shutil.rmtree(path, ignore_errors=True)
+        except OSError:
+            pass
 
 
 def merge(results):
